@@ -159,7 +159,7 @@ pub fn run(tier: &str) -> i32 {
     let caps = Caps::from_env(if tier == "quick" { 150.0 } else { 1500.0 });
     let ins: Mutex<Vec<In>> = Mutex::new(vec![]);
     let push = |space: &str, ch: &[u32], tags: Vec<String>, src: String| ins.lock().unwrap().push(In { space: space.into(), choices: ch.to_vec(), tags, src });
-    corpus::for_each(tier, &caps, &rep, |space, ch, c| push(&format!("corpus/{}", space), ch, c.tags.clone(), c.item.render()));
+    corpus::for_each(if tier == "quick" { "quick" } else { "mid" }, &caps, &rep, |space, ch, c| push(&format!("corpus/{}", space), ch, c.tags.clone(), c.item.render()));
     {
         let sp = c16::Combo { n: 2, curated: true };
         let st = explore(|ctx| sp.gen(ctx), if tier == "quick" { Some(3) } else { None }, &caps, |ch, c| push("c16/combo", ch, c.tags.clone(), c.input.clone()));
